@@ -32,6 +32,10 @@ func (i *kvIndex) UpdateIndex(oplog ipfslog.Log, _ []ipfslog.Entry) error {
 	i.muIndex.Lock()
 	defer i.muIndex.Unlock()
 
+	// the index is rebuilt from the entries the log holds now: a key whose entries have
+	// left the log (a load with a limit keeps only the most recent ones) must not survive
+	index := map[string][]byte{}
+
 	for idx := range entries {
 		item, err := operation.ParseOperation(entries[size-idx-1])
 		if err != nil {
@@ -48,12 +52,12 @@ func (i *kvIndex) UpdateIndex(oplog ipfslog.Log, _ []ipfslog.Entry) error {
 			handled[*item.GetKey()] = struct{}{}
 
 			if item.GetOperation() == "PUT" {
-				i.index[*item.GetKey()] = item.GetValue()
-			} else if item.GetOperation() == "DEL" {
-				delete(i.index, *item.GetKey())
+				index[*item.GetKey()] = item.GetValue()
 			}
 		}
 	}
+
+	i.index = index
 
 	return nil
 }
